@@ -23,7 +23,7 @@ def run(ctx: Ctx) -> int:
     ctx.functions_encoded.append("stage 2: checker/expr_checker.py + stmt_checker.py + cfg_checker.py (operator -> dunder resolution incl. reflected forms, inserted coercions, for -> __iter__/__next__/Option protocol, "
                                  "place decomposition), std/iter.py range / Range.__next__ and std/num.py bindings as reached by the programs, interpreted by lib/e5.py")
     ctx.bounds["stage 2"] = "first %d programs of the corpus through the checked CFGs; opaque results bounded by |r| <= 1000; paths with a 64-bit overflow, inside a known C04 region or out of fuel are outside" % ctx.pick(30, 400)
-    ctx.outside_claim = ["order edges in the HUGR (track_hugr_side_effects) and everything after the checked CFG", "qubit allocation / measurement order", "arrays of non-copyable elements other than arrays, array comprehensions, array indices outside [0, n) (C19)",
+    ctx.outside_claim = ["everything after the emitted HUGR (packaging, validation, LLVM lowering, run-time scheduling of unordered pure nodes)", "qubit allocation / measurement order", "arrays of non-copyable elements other than arrays, array comprehensions, array indices outside [0, n) (C19)",
                          "programs inside the known-finding regions (there only the finding itself is re-established)"]
     ctx.assumptions = ["a block's statements execute in list order, its predicate last; successors[1] = true"]
     KEY_R = "C05:reflected-comparison-evaluates-right-operand-first"
@@ -38,16 +38,31 @@ def run(ctx: Ctx) -> int:
     # stage 2 (E5): the same programs through the *checked* CFGs of the real front end (operator resolution, coercions, iterator protocol, 64-bit arithmetic)
     jobs += e4_check.jobs_for(ctx, "c05", n, batch=3, timeout=ctx.pick(300, 1500), total=n + nfixed, harness="harness/E5_equiv.py", fn="h_equiv5",
                               upto=ctx.pick(30, 400))
+    # stage 3 (E7): the same programs through the HUGR that /repo's back end emits for them (lib/e7.py); the two subscript-order findings are
+    # decided by the back end, so they are probed at this level as well
+    jobs += e4_check.jobs_for(ctx, "c05", n, batch=3, timeout=ctx.pick(300, 1500), total=n + nfixed, harness="harness/E7_equiv.py", fn="h_equiv7",
+                              upto=ctx.pick(30, 300))
+    for region, key in (("subscript-order", "C05:subscript-of-temporary-evaluates-index-before-container"),
+                        ("nested-subscript-order", "C05:nested-subscript-evaluates-outer-index-first")):
+        have = len(e4_corpus.corpus("c05", 6, ctx.seed, region))
+        jobs += e4_check.jobs_for(ctx, "c05", 6, batch=3, timeout=ctx.pick(200, 600), region=region, key=key, total=have,
+                                  harness="harness/E7_equiv.py", fn="h_equiv7")
+    ctx.functions_encoded.append("stage 3: compiler/cfg_compiler.py, expr_compiler.py (visit_PlaceNode, _update_inout_ports, visit_SubscriptAccessAndDrop), stmt_compiler.py (_assign_place), "
+                                 "func_compiler.py, core.py (CompilerContext.compile, track_hugr_side_effects, may_have_side_effect) and the std compilers reached by the programs: "
+                                 "the emitted HUGR is interpreted by lib/e7.py")
+    ctx.bounds["stage 3"] = ("first %d programs of the corpus through the emitted HUGR; same value bounds; every dataflow region must order its possibly side-effecting nodes "
+                             "(calls, panics, containers of those) by value / state-order edges" % ctx.pick(30, 300))
     ctx.crosshair(jobs)
     v = e4_check.collect_verdicts(ctx)
     e5r = e4_check.collect_e5(ctx)
     ctx.extra["e5"] = e5r
+    ctx.extra["e7"] = e4_check.collect_e5(ctx, "e7report")
     ctx.samples.extend({"program": p["src"], "verdict": p["verdict"]} for p in v["programs"][:3])
     return ctx.finish(
         level="translation_validation",
         rule="program = one corpus program accepted by the real check(); per program CrossHair explores every path of (CPython on the source || walk over the real CFG) for symbolic inputs and symbolic call results; event traces must be equal",
         explanation="translation validation of evaluation order: the event trace of CPython executing the source vs. the trace of the real builder's CFG, for all inputs and all results of opaque calls within the bounds",
         trusted_base=["CPython 3.12", "crosshair-tool 0.0.110", "z3 5.1", "import shim", "lib/e4.py block walker", "lib/e4_region.py region predicates of the known findings"],
-        extra_cov={"stage2_checked_cfg": ctx.extra.get("e5"), "programs": max(v["accepted"], 1), "disagreements_checked": len(ctx.violations) + len(ctx.known_hits), "programs_rejected_by_checker": v["rejected"],
+        extra_cov={"stage2_checked_cfg": ctx.extra.get("e5"), "stage3_emitted_hugr": ctx.extra.get("e7"), "programs": max(v["accepted"], 1), "disagreements_checked": len(ctx.violations) + len(ctx.known_hits), "programs_rejected_by_checker": v["rejected"],
                    "rejected_why": v["rejected_why"], "distinct_nontrivial": v["accepted"]},
     )
